@@ -14,7 +14,8 @@ H(e) == IF e.ev = "ff" THEN IVOf(e.alg) ELSE e.chain
 Absorbed(e) == IF e.ev = "ff" THEN e.base ELSE e.fed              \* bytes compressed into the chaining value
 CounterOk(e) == e.ev = "ff" \/ e.base = WAdd(e.fed, WOfInt(e.pos, 8))
 Want(e) == JHFrom(H(e), WShl(Absorbed(e), 3), e.rest, OutBytes(e.alg))
-Check(e) == e.res = "ok" /\ CounterOk(e) /\ e.out = Want(e)
+RefOk(e) == ("out_ref" \in DOMAIN e) => (e.out = e.out_ref /\ e.chain = e.chain_ref /\ e.base = e.base_ref /\ e.pos = e.pos_ref)   \* one-call vs chunk-fed instance
+Check(e) == e.res = "ok" /\ CounterOk(e) /\ RefOk(e) /\ e.out = Want(e)
 Init == l \in 1..N /\ phase = 0 /\ bad = FALSE
 Next == /\ phase = 0 /\ phase' = 1 /\ l' = l
         /\ bad' = IF Check(Rec[l]) THEN FALSE ELSE PrintT(<<"REJECT", l>>)
